@@ -48,7 +48,8 @@ func (v Verb) MarshalJSON() ([]byte, error) { return json.Marshal([]any{v.V, v.F
 type History struct {
 	Seq     []Verb   `json:"seq"`
 	Traffic bool     `json:"traffic"`
-	Pacing  string   `json:"pacing"` // wait | burst
+	Pacing  string   `json:"pacing"`       // wait | burst
+	Bp      bool     `json:"bp,omitempty"` // back-pressure: Top port of capacity 1-2 and a requester that stops retrieving around verbs
 	Out     []string `json:"out,omitempty"`
 	Ctl     string   `json:"ctl,omitempty"` // Enabled | Paused expected once the sequence is answered
 }
@@ -95,6 +96,8 @@ type tracer struct {
 	tickAcks []uint64 // RspTo of the acknowledgments sent in this tick
 	tickRetr []uint64 // ids of the control requests retrieved in this tick
 	inTick   bool
+	// back-pressure statistic: acknowledgments of pause/drain/reset sent while the Top outgoing buffer was full
+	fullAtAck int
 }
 
 func (t *tracer) emit(m map[string]any) {
@@ -162,6 +165,9 @@ func (t *tracer) Func(ctx hooking.HookCtx) {
 		case messaging.HookPosPortMsgSend:
 			if a, ok := msg.(memcontrolprotocol.Rsp); ok {
 				t.tickAcks = append(t.tickAcks, meta.RspTo)
+				if a.Success && a.Command != memcontrolprotocol.CmdEnable && !t.r.top.CanSend() {
+					t.fullAtAck++
+				}
 				t.emit(map[string]any{"e": "crsp", "id": t.ctlID[meta.RspTo], "v": verbName(a.Command), "out": outcomeOf(a.Success, a.Error),
 					"dst": string(meta.Dst) == string(t.r.drv.ctl.AsRemote())})
 			} else {
@@ -248,18 +254,41 @@ type runState struct {
 	qAtEnd   bool
 	dataRsps int
 	timedOut bool
+	// back-pressure (h.Bp): around the verbs flagged in stallAt (index len(Seq) = the epilogue Enable) the
+	// requester stops retrieving from its data port `lead` cycles before the verb is sent until `lag`
+	// cycles after its acknowledgment arrived (at most maxStall cycles after the verb was sent), then
+	// retrieves again while the agent is still in the state the verb left.
+	stallAt   []bool
+	stalling  bool
+	stallVerb int // verb the open stall belongs to
+	leadFrom  int // cycle at which the lead of the open stall began
+	lead, lag int
+	adaptive  bool
+	fullSeen  int
+	sentAt    []int // cycle each verb (and the epilogue) was sent
+	ackAt     []int // cycle each acknowledgment arrived
+	stalls    int
+	heldMax   int // most responses seen waiting in the requester's buffer at the end of a stall
 }
 
 type drvMW struct{ d *driver }
 
-func newDriver(r *rig) *driver {
+const (
+	maxStall = 60
+	maxLead  = 400
+)
+
+func newDriver(r *rig, dataIn int) *driver {
+	if dataIn <= 0 {
+		dataIn = 16
+	}
 	d := &driver{r: r}
 	d.Component = modeling.NewBuilder[struct{}, struct{}, modeling.None]().
 		WithEngine(r.engine).WithFreq(1 * timing.GHz).WithSpec(struct{}{}).Build("Driver")
 	d.AddMiddleware(&drvMW{d: d})
 	d.DeclarePort("Data")
 	d.DeclarePort("Ctl", memcontrolprotocol.Requester)
-	d.data = messaging.NewPort(d, 16, 16, "Driver.Data")
+	d.data = messaging.NewPort(d, dataIn, 16, "Driver.Data")
 	d.ctl = messaging.NewPort(d, 8, 8, "Driver.Ctl")
 	d.AssignPort("Data", d.data)
 	d.AssignPort("Ctl", d.ctl)
@@ -291,22 +320,78 @@ func (m *drvMW) Tick() bool {
 		if a, ok := msg.(memcontrolprotocol.Rsp); ok {
 			if s.epiSent && a.RspTo == s.epiID {
 				s.epiAcked = true
+				s.ackAt[len(s.h.Seq)] = s.cycle
 				continue
+			}
+			if len(s.acks) < len(s.h.Seq) {
+				s.ackAt[len(s.acks)] = s.cycle
 			}
 			s.acks = append(s.acks, ack{RspTo: a.RspTo, Verb: verbName(a.Command), Outcome: outcomeOf(a.Success, a.Error)})
 		}
 	}
-	for msg := d.data.RetrieveIncoming(); msg != nil; msg = d.data.RetrieveIncoming() {
-		s.dataRsps++
+	n := len(s.h.Seq)
+	// an open stall ends lag cycles after the acknowledgment of its verb, or maxStall cycles after the verb
+	if s.stalling && s.sentAt[s.stallVerb] > 0 {
+		acked := s.ackAt[s.stallVerb] > 0
+		if (acked && s.cycle >= s.ackAt[s.stallVerb]+s.lag) || s.cycle >= s.sentAt[s.stallVerb]+maxStall {
+			s.stalling = false
+			if k := d.data.NumIncoming(); k > s.heldMax {
+				s.heldMax = k
+			}
+			// leave the agent some cycles in this state with the requester retrieving again
+			if v := s.cycle + 3 + s.rng.Intn(8); v > s.verbAt {
+				s.verbAt = v
+			}
+		}
+	}
+	if !s.stalling {
+		for msg := d.data.RetrieveIncoming(); msg != nil; msg = d.data.RetrieveIncoming() {
+			s.dataRsps++
+		}
 	}
 	if s.cycle > s.deadline {
 		s.timedOut = true
+		s.stalling = false
+		return false
+	}
+	// hold(j): verb j is due; when it is flagged, first stop retrieving for `lead` cycles
+	hold := func(j int) bool {
+		if !s.h.Bp || !s.stallAt[j] {
+			return false
+		}
+		if s.stalling && s.stallVerb != j {
+			if s.sentAt[s.stallVerb] > 0 && s.h.Pacing != "burst" {
+				return true // the previous stall is still open: wait for it
+			}
+			s.stallVerb = j // burst: the open stall now follows this verb
+		}
+		if !s.stalling {
+			s.stalling, s.stallVerb, s.leadFrom = true, j, s.cycle
+			s.lead, s.lag = 3+s.rng.Intn(14), 1+s.rng.Intn(6)
+			s.stalls++
+		}
+		if s.cycle < s.leadFrom+s.lead {
+			return true
+		}
+		// first verb: slow agents (DRAM, data mover) need longer than the drawn lead to complete enough
+		// responses; keep holding until the agent's Top outgoing buffer is full (plus a few cycles so
+		// that more completed responses queue up behind it), as long as enough responses are outstanding
+		if j == 0 && s.adaptive && s.cycle < s.leadFrom+maxLead {
+			if !d.r.top.CanSend() {
+				if s.fullSeen == 0 {
+					s.fullSeen = s.cycle
+				}
+				return s.cycle < s.fullSeen+s.lag+2
+			}
+			return s.sentReq-s.dataRsps > d.data.NumIncoming()
+		}
 		return false
 	}
 	// control verbs
-	if s.sentVerb < len(s.h.Seq) && s.cycle >= s.verbAt && d.ctl.CanSend() &&
-		(s.h.Pacing == "burst" || len(s.acks) >= s.sentVerb) {
+	if s.sentVerb < n && s.cycle >= s.verbAt && d.ctl.CanSend() &&
+		(s.h.Pacing == "burst" || len(s.acks) >= s.sentVerb) && !hold(s.sentVerb) {
 		s.verbIDs = append(s.verbIDs, d.sendVerb(s.h.Seq[s.sentVerb]))
+		s.sentAt[s.sentVerb] = s.cycle
 		s.sentVerb++
 		if s.h.Pacing == "burst" {
 			s.verbAt = s.cycle + s.rng.Intn(2)
@@ -315,9 +400,11 @@ func (m *drvMW) Tick() bool {
 		}
 	}
 	// epilogue: once the sequence is answered, note the state, enable, send a little more traffic
-	if !s.epiSent && s.sentVerb == len(s.h.Seq) && len(s.acks) >= len(s.h.Seq) && s.cycle >= s.verbAt+2 && d.ctl.CanSend() {
+	if !s.epiSent && s.sentVerb == n && len(s.acks) >= n && s.cycle >= s.verbAt+2 && d.ctl.CanSend() &&
+		!(s.stalling && s.stallVerb != n) && !hold(n) {
 		s.ctlAtEnd, s.qAtEnd = d.r.project()
 		s.epiID = d.sendVerb(Verb{V: "enable"})
+		s.sentAt[n] = s.cycle
 		s.epiSent = true
 	}
 	// data traffic
@@ -339,7 +426,7 @@ func (m *drvMW) Tick() bool {
 		s.sentReq++
 		s.reqAt = s.cycle + 1 + s.rng.Intn(4)
 	}
-	done := s.epiAcked && s.sentReq >= want
+	done := s.epiAcked && s.sentReq >= want && !s.stalling
 	return !done
 }
 
@@ -366,6 +453,8 @@ type runResult struct {
 	sample     []string
 	dataRsps   int
 	timedOut   bool
+	stalls     int
+	fullAtAck  int
 }
 
 func akitaFrame(stack string) string {
@@ -384,11 +473,26 @@ func akitaFrame(stack string) string {
 func runOne(w *bufio.Writer, agent, kind string, runNo int, h History, seed int64, nReq int) (res runResult) {
 	rng := rand.New(rand.NewSource(seed))
 	slow := rng.Intn(2) == 1
-	r := buildRig(agent, rigOpts{slow: slow, portBuf: 4})
+	opts := rigOpts{slow: slow, portBuf: 4}
+	if h.Bp {
+		opts.topBuf, opts.drvIn = 1+rng.Intn(2), 1+rng.Intn(2)
+	}
+	r := buildRig(agent, opts)
 	tr := &tracer{w: w, r: r, ctlID: map[uint64]int{}, dataID: map[uint64]int{}, byAddr: map[uint64][]int{}, served: map[int]bool{}}
 	s := &runState{h: h, rng: rng, tr: tr, nReq: nReq, nAfter: 2, deadline: 6000}
 	if !h.Traffic {
 		s.nReq, s.nAfter = 0, 0
+	}
+	n := len(h.Seq)
+	s.stallAt, s.sentAt, s.ackAt = make([]bool, n+1), make([]int, n+1), make([]int, n+1)
+	if h.Bp {
+		s.nReq += 3
+		s.adaptive = rng.Intn(4) != 0
+		for j := 0; j <= n; j++ {
+			// the first verb most of the time, later ones and the epilogue Enable about half of the time;
+			// a burst sender keeps one stall open across its verbs
+			s.stallAt[j] = (j == 0 && rng.Intn(5) != 0) || (j > 0 && rng.Intn(2) == 0 && (h.Pacing != "burst" || j == n))
+		}
 	}
 	// verbs start while traffic is under way
 	s.verbAt = 1 + rng.Intn(14)
@@ -400,7 +504,7 @@ func runOne(w *bufio.Writer, agent, kind string, runNo int, h History, seed int6
 	r.ctrl.AcceptHook(tr)
 	r.top.AcceptHook(tr)
 	r.engine.AcceptHook(tr)
-	tr.emit(map[string]any{"e": "begin", "agent": agent, "kind": kind, "run": runNo, "pacing": h.Pacing, "traffic": h.Traffic, "slow": slow, "seq": h.Seq})
+	tr.emit(map[string]any{"e": "begin", "agent": agent, "kind": kind, "run": runNo, "pacing": h.Pacing, "traffic": h.Traffic, "slow": slow, "bp": h.Bp, "seq": h.Seq})
 	func() {
 		defer func() {
 			if p := recover(); p != nil {
@@ -431,6 +535,7 @@ func runOne(w *bufio.Writer, agent, kind string, runNo int, h History, seed int6
 	res.sample = tr.keep
 	res.dataRsps = s.dataRsps
 	res.timedOut = s.timedOut
+	res.stalls, res.fullAtAck = s.stalls, tr.fullAtAck
 
 	// B1: outcomes and final control state against the model's behaviour
 	if res.panicMsg == "" && h.Out != nil {
